@@ -13,7 +13,7 @@ def obligations(tier, H):
     obs = []
     n = [0]
 
-    def add(params, call, pre, shape, codes=(100,), timeout=90):
+    def add(params, call, pre, shape, codes=(100,), timeout=240 if thorough else 90):
         n[0] += 1
         obs.append(Ob("c17_{0:04d}".format(n[0]), params, call, pre=pre, shape=shape, twin_codes=codes, timeout=timeout))
 
@@ -64,7 +64,7 @@ def obligations(tier, H):
             ["0 <= c1 <= c2 <= {0}".format(size), "len(ctype) <= {0}".format(slen)], shape)
         shape = {"part": "do_POST", "text": text, "raises": True}
         add("c1: int, c2: int, ctype: str", "H.h_do_post({0!r}, c1, c2, ctype)".format(shape),
-            ["0 <= c1 <= c2 <= {0}".format(size), "len(ctype) <= {0}".format(slen)], shape, codes=(101,))
+            ["0 <= c1 <= c2 <= {0}".format(size), "len(ctype) <= {0}".format(slen)], shape, codes=(101,), timeout=300 if thorough else 90)
     for reply in range(len(H.TEXTS)):
         for ctype in range(len(H.CTYPES)):
             # print() formats its arguments: the content type comes from a table
